@@ -232,4 +232,236 @@ theorem snapshot_mem_history {ρ} (s : Res → List ρ) (us : List (Upd ρ)) (k 
       simp only [List.take_succ_cons, applyAll, history, List.mem_cons]
       exact Or.inr (ih _ k)
 
+/-! ## A rule table guarded by one reader-writer mutex: the model behind the "settled switch" oracle
+
+One module: its rule table `cur : τ` (for the five modules `τ = Res → List ρ`), the mutex `l`, any number of threads.
+Lock events are those of `Sentinel.LockModel` (`Ev.acq / Ev.rel`, every mutex of the system may occur); in addition a
+thread may `read` the table (a slot's single snapshot), and a writer swaps it in two observable steps: `wbegin` (from now
+on the table is being replaced — a reader that got in here would see a torn table) and `wend f` (the table `f cur` is
+published).  `sAdm` is what the code is *supposed* to obey and what the generated table certifies row by row
+(`module_tables_locked`): readers hold `l` (either mode) at the read, a writer holds `l` in write mode from `wbegin`
+through `wend` and does not release it in between. -/
+
+inductive SEv (τ : Type)
+  | lk (e : Ev)
+  | read (t : Thread)
+  | wbegin (t : Thread)
+  | wend (t : Thread) (f : τ → τ)
+
+structure SSt (τ : Type) where
+  ls : LS
+  cur : τ
+  pending : Option Thread
+
+variable {τ : Type}
+
+/-- admissible next event: the lock semantics admits it and the discipline is obeyed -/
+def sAdm (l : Lock) (s : SSt τ) : SEv τ → Prop
+  | .lk e => enabled s.ls e ∧ ∀ t, s.pending = some t → e ≠ Ev.rel t l true
+  | .read t => (∃ w, holds s.ls t l w) ∧ s.pending ≠ some t
+  | .wbegin t => holds s.ls t l true ∧ s.pending = none
+  | .wend t _ => s.pending = some t
+
+def sStep (s : SSt τ) : SEv τ → SSt τ
+  | .lk e => { s with ls := stepLS s.ls e }
+  | .read _ => s
+  | .wbegin t => { s with pending := some t }
+  | .wend _ f => { s with cur := f s.cur, pending := none }
+
+def sRun (s : SSt τ) : List (SEv τ) → SSt τ
+  | [] => s
+  | e :: r => sRun (sStep s e) r
+
+def sWF (l : Lock) (s : SSt τ) : List (SEv τ) → Prop
+  | [] => True
+  | e :: r => sAdm l s e ∧ sWF l (sStep s e) r
+
+/-- the table published by the completed swaps of `tr`, starting from `v` -/
+def pub (v : τ) : List (SEv τ) → τ
+  | [] => v
+  | .wend _ f :: r => pub (f v) r
+  | .lk _ :: r => pub v r
+  | .read _ :: r => pub v r
+  | .wbegin _ :: r => pub v r
+
+def isWend : SEv τ → Bool
+  | .wend _ _ => true
+  | _ => false
+
+/-- whoever is in the middle of a swap holds the mutex in write mode -/
+def SInv (l : Lock) (s : SSt τ) : Prop := ∀ t, s.pending = some t → holds s.ls t l true
+
+theorem sInv_step {l : Lock} {s : SSt τ} {e : SEv τ} (hi : SInv l s) (ha : sAdm l s e) : SInv l (sStep s e) := by
+  cases e with
+  | lk e =>
+    intro t ht
+    exact holds_step_fwd ha.1 (hi t ht) (ha.2 t ht)
+  | read t => exact hi
+  | wbegin t =>
+    intro t' ht'
+    simp only [sStep, Option.some.injEq] at ht'
+    subst ht'
+    exact ha.1
+  | wend t f =>
+    intro t' ht'
+    simp [sStep] at ht'
+
+theorem sRun_append (s : SSt τ) (u v : List (SEv τ)) : sRun s (u ++ v) = sRun (sRun s u) v := by
+  induction u generalizing s with
+  | nil => rfl
+  | cons e r ih => simp [sRun, ih]
+
+theorem sWF_append (l : Lock) (s : SSt τ) (u v : List (SEv τ)) :
+    sWF l s (u ++ v) ↔ sWF l s u ∧ sWF l (sRun s u) v := by
+  induction u generalizing s with
+  | nil => simp [sWF, sRun]
+  | cons e r ih => simp [sWF, sRun, ih, and_assoc]
+
+theorem sInv_run {l : Lock} (s : SSt τ) (tr : List (SEv τ)) (hi : SInv l s) (hw : sWF l s tr) : SInv l (sRun s tr) := by
+  induction tr generalizing s with
+  | nil => exact hi
+  | cons e r ih => exact ih _ (sInv_step hi hw.1) hw.2
+
+theorem cur_run (s : SSt τ) (tr : List (SEv τ)) : (sRun s tr).cur = pub s.cur tr := by
+  induction tr generalizing s with
+  | nil => rfl
+  | cons e r ih => cases e <;> simp [sRun, sStep, pub, ih]
+
+theorem pub_append (v : τ) (u w : List (SEv τ)) : pub v (u ++ w) = pub (pub v u) w := by
+  induction u generalizing v with
+  | nil => rfl
+  | cons e r ih => cases e <;> simp [pub, ih]
+
+theorem pub_noWend (v : τ) (m : List (SEv τ)) (h : ∀ e ∈ m, isWend e = false) : pub v m = v := by
+  induction m generalizing v with
+  | nil => rfl
+  | cons e r ih =>
+    have hr : ∀ e ∈ r, isWend e = false := fun e he => h e (List.mem_cons_of_mem _ he)
+    cases e with
+    | wend t f => have := h (.wend t f) (List.mem_cons_self ..); simp [isWend] at this
+    | lk e => simpa [pub] using ih v hr
+    | read t => simpa [pub] using ih v hr
+    | wbegin t => simpa [pub] using ih v hr
+
+/-- a projection of the table (e.g. the entry of one resource) that every swap of `tr` preserves is never changed -/
+theorem pub_preserves {α : Type} (π : τ → α) (v : τ) (tr : List (SEv τ))
+    (h : ∀ e ∈ tr, ∀ t f, e = SEv.wend t f → ∀ x, π (f x) = π x) : π (pub v tr) = π v := by
+  induction tr generalizing v with
+  | nil => rfl
+  | cons e r ih =>
+    have hr : ∀ e ∈ r, ∀ t f, e = SEv.wend t f → ∀ x, π (f x) = π x := fun e he => h e (List.mem_cons_of_mem _ he)
+    cases e with
+    | wend t f =>
+      simp only [pub]
+      rw [ih (f v) hr]
+      exact h _ (List.mem_cons_self ..) t f rfl v
+    | lk e => simpa [pub] using ih v hr
+    | read t => simpa [pub] using ih v hr
+    | wbegin t => simpa [pub] using ih v hr
+
+/-- **No torn read.**  In every admissible execution (any number of threads, any schedule) no swap is in progress at
+    the moment of a read: the reader holds the mutex, the swapping writer holds it in write mode, and the two exclude
+    each other (`holds_exclusive`). -/
+theorem read_not_torn {l : Lock} (s0 : SSt τ) (pre post : List (SEv τ)) (t : Thread)
+    (hi : SInv l s0) (hw : sWF l s0 (pre ++ [SEv.read t] ++ post)) : (sRun s0 pre).pending = none := by
+  rw [List.append_assoc, sWF_append] at hw
+  obtain ⟨hpre, hrest⟩ := hw
+  have hadm : sAdm l (sRun s0 pre) (SEv.read t) := hrest.1
+  have hinv := sInv_run s0 pre hi hpre
+  obtain ⟨⟨w, hh⟩, hne⟩ := hadm
+  cases hp : (sRun s0 pre).pending with
+  | none => rfl
+  | some t' =>
+    have htt : t' ≠ t := by
+      intro h; subst h; exact hne hp
+    exact absurd hh (holds_exclusive htt (Or.inl rfl) (hinv t' hp))
+
+/-! ## `sync.Once`
+
+`start t`: thread `t` wins the once and begins the body (possible only if the body has neither run nor is running);
+`finish t`: the body returns; `ret t`: a `Do` call returns to its caller (possible only when the body has completed —
+losers wait).  Any number of threads, any schedule. -/
+
+inductive OEv
+  | start (t : Thread)
+  | finish (t : Thread)
+  | ret (t : Thread)
+deriving DecidableEq
+
+structure OSt where
+  done : Bool
+  running : Option Thread
+
+def oAdm (s : OSt) : OEv → Prop
+  | .start _ => s.done = false ∧ s.running = none
+  | .finish t => s.running = some t
+  | .ret _ => s.done = true
+
+def oStep (s : OSt) : OEv → OSt
+  | .start t => { s with running := some t }
+  | .finish _ => { done := true, running := none }
+  | .ret _ => s
+
+def oRun (s : OSt) : List OEv → OSt
+  | [] => s
+  | e :: r => oRun (oStep s e) r
+
+def oWF (s : OSt) : List OEv → Prop
+  | [] => True
+  | e :: r => oAdm s e ∧ oWF (oStep s e) r
+
+def isStart : OEv → Bool
+  | .start _ => true
+  | _ => false
+
+/-- how often the body is begun -/
+def starts (tr : List OEv) : Nat := tr.countP isStart
+
+def oBudget (s : OSt) : Nat := if s.done || s.running.isSome then 0 else 1
+
+theorem starts_le_budget (s : OSt) (tr : List OEv) (hw : oWF s tr) : starts tr ≤ oBudget s := by
+  induction tr generalizing s with
+  | nil => simp [starts]
+  | cons e r ih =>
+    have hr := ih _ hw.2
+    cases e with
+    | start t =>
+      obtain ⟨hd, hn⟩ := hw.1
+      have h0 : oBudget (oStep s (.start t)) = 0 := by simp [oBudget, oStep]
+      have h1 : oBudget s = 1 := by simp [oBudget, hd, hn]
+      rw [h0] at hr
+      have hc : starts (OEv.start t :: r) = starts r + 1 := by
+        unfold starts; exact List.countP_cons_of_pos (by rfl)
+      omega
+    | finish t =>
+      have h0 : oBudget (oStep s (.finish t)) = 0 := by simp [oBudget, oStep]
+      rw [h0] at hr
+      have hc : starts (OEv.finish t :: r) = starts r := by
+        unfold starts; exact List.countP_cons_of_neg (by simp [isStart])
+      omega
+    | ret t =>
+      have hc : starts (OEv.ret t :: r) = starts r := by
+        unfold starts; exact List.countP_cons_of_neg (by simp [isStart])
+      have hs : oStep s (.ret t) = s := rfl
+      rw [hs] at hr
+      omega
+
+theorem oWF_append (s : OSt) (u v : List OEv) : oWF s (u ++ v) ↔ oWF s u ∧ oWF (oRun s u) v := by
+  induction u generalizing s with
+  | nil => simp [oWF, oRun]
+  | cons e r ih => simp [oWF, oRun, ih, and_assoc]
+
+theorem done_needs_start (s : OSt) (tr : List OEv) (hw : oWF s tr) (hd : s.done = false) (hn : s.running = none)
+    (h : (oRun s tr).done = true) : 1 ≤ starts tr := by
+  cases tr with
+  | nil => simp [oRun, hd] at h
+  | cons e r =>
+    cases e with
+    | start t =>
+      have hc : starts (OEv.start t :: r) = starts r + 1 := by
+        unfold starts; exact List.countP_cons_of_pos (by rfl)
+      omega
+    | finish t => have := hw.1; simp [oAdm, hn] at this
+    | ret t => have := hw.1; simp [oAdm, hd] at this
+
 end Sentinel.C15
